@@ -208,7 +208,10 @@ fn gen_custom(rng: &mut Rng, depth: u32, frozen: bool, s: &mut String) -> (Strin
             s.push_str("UserType(");
             // (an empty keyspace cannot be written: the parser would take the type name for it)
             let ks: String = (0..rng.range(1, 5)).map(|_| *rng.pick(b"abck_1.") as char).collect();
-            let name = ident(rng);
+            let mut name = ident(rng);
+            if name.is_empty() {
+                name = b"n".to_vec(); // likewise an empty type name is only expressible before a comma
+            }
             s.push_str(&ks);
             s.push(',');
             s.push_str(&hex_plain(&name));
@@ -1077,6 +1080,12 @@ pub fn generate(rng: &mut Rng, tier: Tier, emit: &mut dyn FnMut(String)) {
         "Int32Type(", "FooType(Int32Type)", "ListType(ListType(Int32Type,Int32Type))", "ListType(Int32Type,ListType(Int32Type,Int32Type))", "SetType(,Int32Type)",
         "SetType(,,Int32Type)", "SetType( , Int32Type , )", "ListType(Int32Type))", "\u{00e9}Type", "ListType(\u{2003}Int32Type)", "Int32Type\u{00a0}",
     ] {
+        emit(case_line(&nofeat, false, 'n', None, &rows_frame_with_type(&custom_type_bytes(s.as_bytes()))));
+    }
+
+    // parameter-count mismatches nested k deep: the count is taken by re-parsing (known finding C08-H1: 2^k)
+    for k in [1usize, 2, 6, 12, 26] {
+        let s = format!("{}LongType{}", "ListType(LongType,".repeat(k), ")".repeat(k));
         emit(case_line(&nofeat, false, 'n', None, &rows_frame_with_type(&custom_type_bytes(s.as_bytes()))));
     }
 
